@@ -43,7 +43,12 @@ class Lambdas:
         import numpy as np
 
         with np.errstate(all="ignore"):
-            z = self.np_f(f.astype(complex), *[complex(p) if False else p for p in params])
+            try:
+                z = self.np_f(f.astype(complex), *[complex(p) if False else p for p in params])
+            except (ZeroDivisionError, OverflowError):
+                # Python-float sub-expressions of the parameters alone (0.0 ** -1.0, 1e308 * 1e308): no first-pass value, the
+                # caller adjudicates these points with the 50-digit evaluation
+                return np.full(f.shape, complex("nan"), dtype=complex)
         return np.array(z, dtype=complex) * np.ones(f.shape, dtype=complex)
 
     def mp_eval(self, f: float, params: Sequence[float]) -> Optional[complex]:
